@@ -1,1 +1,33 @@
-Require Import RIO.Base.
+(* C17 — the explain trace agrees with what matching actually does.  Statements only; proofs in RIO.RouterProofs. *)
+Require Import RIO.Base RIO.Route RIO.Layer RIO.Tree RIO.TreeInst RIO.Matchers RIO.MatcherSpec RIO.RouterSpec RIO.RouterHist RIO.RouterProofs.
+Close Scope N_scope.
+
+(* on the router reached by any admissible history, the routes appearing in the trace are exactly the
+   routes returned by matching *)
+Theorem C17_routes : forall lower eng valid ic_host ic_path always,
+  engine_dotstar eng -> engine_prefix_law eng ->
+  forall ops q r, hist_ok lower [] ops ->
+  let R := rrun lower eng valid ic_host ic_path always ops (router_new lower eng valid ic_host ic_path always) in
+  (In r (traces_routes (router_trace lower eng valid ic_host ic_path always q R))
+   <-> In r (router_match lower eng valid ic_host ic_path always q R)).
+Proof.
+  intros lower eng valid ih ip al Hd Hp ops q r Hok R.
+  apply (rtrace_spec lower eng valid ih ip al Hd Hp R (live ops) q r).
+  apply (rrun_refines lower eng valid ih ip al Hd Hp ops _ []); [apply rrepr_new|exact Hok].
+Qed.
+
+(* the traced final route has the (maximal) priority of the route selected by get_route *)
+Theorem C17_final_priority : forall lower eng valid ic_host ic_path always,
+  engine_dotstar eng -> engine_prefix_law eng ->
+  forall ops q, hist_ok lower [] ops ->
+  let R := rrun lower eng valid ic_host ic_path always ops (router_new lower eng valid ic_host ic_path always) in
+  option_map rt_priority (best_route (traces_routes (router_trace lower eng valid ic_host ic_path always q R)))
+  = option_map rt_priority (router_get_route lower eng valid ic_host ic_path always q R).
+Proof.
+  intros lower eng valid ih ip al Hd Hp ops q Hok R.
+  apply (trace_final_priority lower eng valid ih ip al Hd Hp R (live ops) q).
+  apply (rrun_refines lower eng valid ih ip al Hd Hp ops _ []); [apply rrepr_new|exact Hok].
+Qed.
+
+Print Assumptions C17_routes.
+Print Assumptions C17_final_priority.
